@@ -97,7 +97,10 @@ def _mech_name(tagkey, rname):
     """Mechanism key: generated wrapper rules (controlled/adjoint/flip of a base rule) are keyed by the base rule they wrap,
     so the same defect seen through different wrappers/instances is one mechanism; direct rules keep (registry key, rule)."""
     b = _base_rule(rname)
-    return f"wrapped:{b}" if b != rname else f"{tagkey}:{rname}"
+    if b != rname:
+        return f"wrapped:{b}"
+    # rules registered for generated symbolic operators (generated[C], generated[base], generated[adj], ...): one mechanism per rule
+    return f"generated:{rname}" if tagkey.startswith("generated[") else f"{tagkey}:{rname}"
 
 
 def _classify(emitted, declared, exact):
